@@ -2,5 +2,5 @@
 (* The full scope: every safe, stratifiable E1 program of <= 2 rules with <= 2 body literals.
    Kept in its own module because TLC evaluates every constant definition at start-up. *)
 EXTENDS MC_SemiNaive
-ProgramsFull == E1Programs(2) \cup {LostJoin, TwoCounts}
+ProgramsFull == E1Programs(2) \cup {LostJoin, TwoCounts, RecAgg}
 =============================================================================
